@@ -185,7 +185,16 @@ class Gen:
         if k == "subsection":
             g = "group-%d" % len(self.groups)
             self.groups.append(g)
-            return Adt("Meta", mv("Subsection"), (self.tree(depth - 1), self.doc(g)))
+            # a group_help nested in another one is flattened by design: only outermost headers are printed
+            nested = getattr(self, "in_group", 0)
+            self.in_group = nested + 1
+            n0 = len(self.visible)
+            inner = self.tree(depth - 1)
+            self.in_group = nested
+            if not nested and len(self.visible) > n0:
+                # (a group whose members are all hidden prints nothing at all)
+                self.headers = getattr(self, "headers", []) + [g]
+            return Adt("Meta", mv("Subsection"), (inner, self.doc(g)))
         if k == "suffix":
             return Adt("Meta", mv("Suffix"), (self.tree(depth - 1), self.doc("suffix-%d" % self.n)))
         if k == "custom":
@@ -231,7 +240,18 @@ class Gen:
             return Adt("Meta", mv("Strict"), (self.item(False, only="pos")[0],))
         if k == "adjacent":
             a = self.item(False, True)[0]
-            b = self.tree(depth - 1, True)
+            if self.pick(2, "adj-group") == 1 and not getattr(self, "in_group", 0):
+                # a `group_help` section inside the adjacent group: its member is listed under the group's
+                # header like any other item (with or without help text)
+                g = "group-%d" % len(self.groups)
+                self.groups.append(g)
+                self.headers = getattr(self, "headers", []) + [g]
+                self.in_group = 1
+                kind = ["flag", "arg"][self.pick(2, "leaf")]
+                b = Adt("Meta", mv("Subsection"), (self.item(False, False, only=kind)[0], self.doc(g)))
+                self.in_group = 0
+            else:
+                b = self.tree(depth - 1, True)
             return Adt("Meta", mv("Adjacent"), (Adt("Meta", mv("And"), (Seq((a, b)),)),))
         raise ValueError(k)
 
@@ -322,6 +342,9 @@ def run_tree_job(job, build):
             lines = [ln for ln in lines if not ln.startswith("  ") or ln.startswith("    ")]
             if any(ln.strip().startswith(name) and ln.startswith("    ") for ln in text.split("\n")):
                 bad.append("%s must not be listed" % name)
+        for hdr in getattr(g, "headers", []):
+            if text.count(hdr) != 1:
+                bad.append("header of the group_help section %s appears %d times" % (hdr, text.count(hdr)))
         if text2 is not None and rda(text2) != text:
             bad.append("custom_usage changes the item lists")
         if bad:
